@@ -465,7 +465,7 @@ pub fn build(
             for region in &regions {
                 let name = &region.name.as_deref().unwrap_or("unnamed");
                 let alignment = region.type_ref.alignment(&semantic.type_registry).unwrap();
-                if last_address % alignment != 0 {
+                if alignment == 0 || last_address % alignment != 0 {
                     anyhow::bail!(
                         "field `{name}` of type `{resolvee_path}` is located at 0x{last_address:X}, which is not divisible by {alignment} (the alignment of the type of the field)"
                     );
@@ -524,8 +524,8 @@ fn resolve_regions(
                 return Some(());
             }
 
+            self.last_address = self.last_address.checked_add(size)?;
             self.regions.push(region);
-            self.last_address += size;
             Some(())
         }
     }
